@@ -108,6 +108,23 @@ def replay_valid(k, c, full, mods, slot=0):
         if X.shape[1] == 1 and Y.shape[1] == 1:
             cmp(form + "/1-D", {"dtypes": [dx, dy], "layout": lo},
                 lambda: M.joint_counts(a[:, 0], b[:, 0], nx, ny), exp)
+    # a frame is counted in the cell of ITS state pair whatever the ids are: the first side relabelled by the injection
+    # s -> s + 256 (ids that an 8-bit type cannot hold) in a wide element type, the second side in an 8-bit type
+    if not c["self"] and (full or slot == k % 4):
+        wide = ("int16", "int32", "int64", "uint16")[k % 4]
+        narrow = ("int8", "uint8")[(k // 4) % 2]
+        lo = LAYOUTS[(k // 2) % 4]
+        for swap in (False, True):
+            expw = np.zeros((X.shape[1], Y.shape[1], nx + 256, ny), dtype=np.int64)
+            expw[:, :, 256:, :] = exp
+            a, b = lay(X + 256, lo, wide), lay(Y, lo, narrow)
+            if swap:        # the wide ids on the second side instead
+                expw = np.ascontiguousarray(np.transpose(expw, (1, 0, 3, 2)))
+                cmp("joint_counts/mixed-dtypes/wide-ids", {"dtypes": [narrow, wide], "layout": lo, "ids": "second side + 256"},
+                    lambda: M.joint_counts(b, a, ny, nx + 256), expw)
+            else:
+                cmp("joint_counts/mixed-dtypes/wide-ids", {"dtypes": [wide, narrow], "layout": lo, "ids": "first side + 256"},
+                    lambda: M.joint_counts(a, b, nx + 256, ny), expw)
     for ai in range(X.shape[1]):
         for bi in range(Y.shape[1]):
             if not full and (k + ai + bi) % 4 != slot:       # bincount2d is serial: one slot per pair
